@@ -76,6 +76,9 @@ def validity(out, K, N, lead, mask=None, eps=0.0, label='posterior', mass=None, 
 
 
 # ----------------------------------------------------------------------------- A: direct routine
+_DM = [0]
+
+
 def case_direct(rng, tier, i):
     from pb_bss.distribution.mixture_model_utils import log_pdf_to_affiliation
     K = int(rng.integers(1, 7))
@@ -95,6 +98,16 @@ def case_direct(rng, tier, i):
         mask = rng.random((*lead, K, N)) < 0.7
         if rng.random() < 0.5:
             mask[..., :, 0] = False
+    _DM[0] += 1
+    if _DM[0] % 5 == 0 and K >= 2:
+        # every run: an INACTIVE class whose log-pdf exceeds every active one by far more than the exp range (a frame that
+        # belongs to a source the mask switches off); every class keeps weight
+        mask = np.ones((*lead, K, N), bool)
+        off = rng.integers(0, K, size=(*lead, N))
+        np.put_along_axis(mask, off[..., None, :], False, axis=-2)
+        lp = lp.copy()
+        lp[~mask] += dt(float(rng.choice([200.0, 2000.0, 1e5])))
+        w = np.full(ws, 1.0 / K, dtype=dt) if _DM[0] % 10 == 0 else np.maximum(w, dt(0.05))
     eps = float(rng.choice([0.0, 0.0, 1e-10, 1e-3]))
     for a in (lp, w):
         a.setflags(write=False)
@@ -122,11 +135,13 @@ def eval_direct(rp, rng=None):
         return 'caller array modified', 'direct:mutates', None
     wb = np.broadcast_to(w, lp.shape).astype(float)
     # the predicates apply where the routine's own contract holds (theorem C01_posterior_floor_inactive): some
-    # active class with non-negligible weight lies within exp-range of the column maximum; columns without mass
-    # or whose active classes underflow against an inactive one are compared with the model only
+    # active class with non-negligible weight lies within exp-range of the largest log-pdf AMONG THE ACTIVE classes (the
+    # log-pdfs of inactive classes do not matter since fix 'masked scaling'); columns without mass are compared with the
+    # model only
     gap = 60.0 if lp.dtype == np.float32 else 600.0
     act = np.broadcast_to(mask, lp.shape) if mask is not None else np.ones(lp.shape, bool)
-    near = act & (wb >= 1e-30) & (lp.astype(float) >= lp.astype(float).max(-2, keepdims=True) - gap)
+    lpa = np.where(act, lp.astype(float), -np.inf)
+    near = act & (wb >= 1e-30) & (lpa >= lpa.max(-2, keepdims=True) - gap)
     mass = near.any(-2) | ~act.any(-2)
     chk_mask = mask if mask is not None else None
     if eps == 0:
